@@ -56,8 +56,12 @@ def rule_a(ctx):
             ctx.ob("written-time-synchronised|%s" % b.name, not b.path_exists_to_return(x, avoiding=[s]),
                    "once the new time is written, every path to a return passes synchronize (no early return between the two)", [x, s])
         oos_sites = list(b.aggregates(adt="simulation::ExecutionError", variant="OutOfSync"))
-        ctx.ob("synchronised-time-run|%s" % b.name, not b.path_exists_to_return(s, avoiding=runs + oos_sites),
-               "after synchronize every path to a return runs the executor, except the one that reports OutOfSync", [s] + runs)
+        fails = [r for r in K.failure_results(b) if b.can_reach(s, r) and not any(b.can_reach(x, r) for x in runs)]
+        ctx.ob("synchronised-time-run|%s" % b.name, not b.path_exists_to_return(s, avoiding=runs + oos_sites + fails),
+               "after synchronize every path to a return runs the executor, except a failure result", [s] + runs)
+        badf = [r for r in fails if not K.result_flows_from_variant(b, r, "OutOfSync")]
+        ctx.ob("failure-before-run-is-out-of-sync|%s" % b.name, not badf,
+               "between synchronize and run the only failure that can be returned is the OutOfSync error", badf or [s])
         # value
         w = [x for x in writes if b.dominates(x, s)][0]
         wo = K.call_arg_origins(w, 1)
@@ -103,12 +107,19 @@ def rule_a(ctx):
                    "Err(OutOfSync(lag)) iff synchronize returned OutOfSync(lag), a tolerance is set and lag > tolerance (strict)", [e])
             lo = b.origins(e.node["r"]["ops"][0], e)
             ctx.ob("out-of-sync-carries-lag|%s" % b.name, is_lag(lo), "OutOfSync carries the lag reported by the clock", [e])
-            ctx.ob("out-of-sync-skips-run|%s" % b.name, not any(b.can_reach(e, r) for r in runs), "after OutOfSync no model code runs in that step", [e])
+            # `?` on a value built from this error has a Continue edge in the CFG that cannot be taken: do not follow it
+            trys = [t for t in b.calls(r"^std::ops::Try::branch$") if K.flows_from(b, b.origins(t.args()[0], t), lambda x, e=e: x[0] == "agg" and x[1] == e.b and x[2] == e.i)]
+            ctx.ob("out-of-sync-skips-run|%s" % b.name, not any(b.can_reach(e, r, avoiding=trys) for r in runs) and
+                   (not trys or any(K.result_flows_from_variant(b, r, "OutOfSync") for r in K.failure_results(b))),
+                   "after OutOfSync no model code runs in that step", [e])
         # run reachable from the sync on: Synchronized, no tolerance, lag <= tolerance
         for r in runs:
             conds = b.conditions(r)
             forced = [c for c in conds if b.block_dominates(s.b, c.b) and c.b != s.b or (c.b == s.b)]
             bad = [c for c in conds if b.dominates(s, c.site) and c.kind in ("variant", "cmp", "call", "bool")]
+            # the `?` of a helper's result (Continue side) is not a condition on the clock's answer; which failures can be
+            # returned there is decided by failure-before-run-is-out-of-sync / out-of-sync-iff
+            bad = [c for c in bad if not (c.kind == "variant" and set(c.data[1]) <= {"Continue", "Break"})]
             ctx.ob("lag-ignored-without-tolerance|%s" % b.name, not bad,
                    "run must be reached on every outcome of synchronize other than the OutOfSync-above-tolerance branch", [r] + [c.site for c in bad])
 
